@@ -145,7 +145,8 @@ def verdict(ctx: Ctx, known: List[Dict[str, Any]]):
         if ob.status != "violated":
             continue
         key = (ctx.prop, ob.rule, ob.construct)
-        if key in suppress:
+        # a listed finding may pin the analysed form of the construct: a different way of failing at the same place is new
+        if key in suppress and suppress[key].get("form") in (None, ob.form):
             listed.append((ob, suppress[key]))
         else:
             new.append(ob)
